@@ -7,10 +7,13 @@
   PAIR     JSON keys written by the renderer == keys the raw parser reads; type-name strings per kind == the parser's;
            logical-type names: as_str(V) is mapped back to V by the parser for every known variant; decimal's
            parameters are written under the keys the parser reads
-  CYCLE    array / map / union arms take the cycle guard before rendering children and release it after; named arms
-           consult the written-as-reference test first (shared with C19)
+  CYCLE    array / map / union arms take the cycle guard before rendering children and release it on every path after
+           the container is rendered; the guard errs when the node is met again with no name written in between
+           (equal generations included); the written-as-reference test separates the table's initial value from
+           every generation and only its never-written edge marks the node (shared with C19)
   NAMESPACE the renderer threads namespaces as the parser does: record fields get the record's namespace, other
-           children inherit
+           children inherit; a reference to a null-namespace name from inside a namespace is written ".name"
+  REQUIRED every key the parser requires for a kind / logical type is written on every path of its arm
 It does NOT decide isomorphism of the re-parsed graph for every built graph.
 """
 from ..lib import *
